@@ -19,7 +19,14 @@ RULE = ('full product of {payload alphabet per length 2/20/32/40} x {P2PKH, P2SH
         'scripts of every template; call histories of length <= 2 (thorough 3) over 38 queries / state changes on ONE '
         'HDKey or Key object (address() with every encoding x script type, foreign prefixes, (un)compressed, '
         'address_obj, hash160, wif, public, as_dict, network_change, earlier outputs) followed by every way of '
-        'using that object, its address_obj or its address() string as destination.  The reference computes address and script from (network, kind, version, '
+        'using that object, its address_obj or its address() string as destination; the address STRING space around '
+        'the canonical strings: {known HRPs, HRPs of unknown chains, HRPs one character away from a known one} x '
+        '{lower, UPPER, three mixed-case spellings} x witness kind x payload, all 256 Base58Check version bytes, and '
+        'the invalid neighbours of valid strings (checksum character, Bech32/Bech32m variant swapped, HRP re-labelled, '
+        'witness version 17, program length, padding, Base58 payload length), each on every transaction network '
+        'through Output(address=str[,encoding]), add_output, Address.parse(str, network) -> Output / add_output and '
+        'deserialize_address(str, network), judged by the strict reference decoders (string is / is not an address of '
+        'that network).  The reference computes address and script from (network, kind, version, '
         'payload); a case is non-trivial when the library returned an output that was compared (distinct by '
         'network, kind, version, payload)')
 ASSUMPTIONS = [
@@ -36,6 +43,14 @@ ASSUMPTIONS = [
     'witness type on its current network; network_change moves the expectation to the new network); for an Address '
     'object handed out by the key only identity and the inverse law are demanded, and an object the caller '
     'requested with a script type / prefix that contradicts its encoding is classed apart',
+    'address strings: whether a string is an address of a network is decided by the strict reference decoders '
+    '(BIP173/BIP350 incl. the all-upper-case spelling, Base58Check with a 20-byte payload) and the golden prefix table; '
+    'a string that is not must be refused by Output / add_output, also when it went through Address.parse(str, '
+    'network=<that network>), whatever network (a name, a list, none) the library decoder reports for it.  Accepting '
+    'the upper case spelling of an address of the network itself is NOT demanded (the library refuses it; refusal '
+    'is safe); when it is accepted, script and type must be exact and the reported address must be the string given '
+    'or its lower case form.  deserialize_address(str, network) may refuse or name other networks, it must only not '
+    'present a non-address of the network as one',
     'an address string is foreign when no row of the golden table for the transaction network decodes it '
     '(testnet/testnet4/signet and bitcoin/regtest base58 share encodings and are accepted); for Address/HDKey '
     'objects refusal is demanded only in Transaction.add_output (Output() alone has no transaction; its '
@@ -860,8 +875,260 @@ def sub_keyhist(case):
             'out': dict(acc.out, **({'history_calls_refused': refused} if refused else {}))}
 
 
+# ---------------------------------------------------------------------------------- sub: addrstr
+# The address STRING space beyond the canonical strings the reference encoders produce for the networks of the
+# golden table: every spelling of a segwit address (lower, UPPER - both valid per BIP173 - and mixed case), every
+# human-readable part around the known ones (unknown chains, one character less / more), all 256 Base58Check version
+# bytes, and the invalid neighbours of valid strings (checksum, checksum variant, re-labelled HRP, program length /
+# version / padding, payload length).  Oracle: the strict reference decoders (BIP173/BIP350, Base58Check) and the
+# golden prefix table decide for every (string, transaction network) whether the string IS an address of that network
+# and which script it stands for; everything else must be refused, whatever the library's decoder reports as the
+# string's network (a list, one name, [] or '').
+_KNOWN_HRPS = sorted({nets.hrp(n) for n in nets.NAMES})
+_KNOWN_VERS = sorted({nets.p2pkh_ver(n) for n in nets.NAMES} | {nets.p2sh_ver(n) for n in nets.NAMES})
+_FOREIGN_HRPS = ['grs', 'vtc', 'ex', 'tex']           # chains the library does not know
+_QUICK_NEAR = ['bc', 'tb', 'ltc']                     # quick tier: neighbours of these HRPs only
+_SPELLINGS = ('lower', 'upper', 'hrp_upper', 'data_upper', 'one_char_upper')
+_SEGWIT_INVALID = ('checksum_char_changed', 'checksum_of_other_bech32_variant', 'hrp_relabelled',
+                   'witness_version_17', 'v0_program_length_not_20_or_32', 'program_too_short', 'program_too_long',
+                   'padding_invalid')
+_BASE58_INVALID = ('checksum_char_changed', 'payload_19_bytes', 'payload_21_bytes', 'payload_32_bytes')
+
+
+def _near_hrps(known):
+    """HRPs one edit away from a known one (not themselves known); '1' inside an HRP is legal (last '1' separates)"""
+    out = []
+    for h in known:
+        for c in (h[:-1], h[1:], h + 'x', 'x' + h, h + '1', h + h):
+            if c and c not in _KNOWN_HRPS and c not in out:
+                out.append(c)
+    return out
+
+
+def _spell(a, how):
+    pos = a.rfind('1')
+    if how == 'lower':
+        return a
+    if how == 'upper':
+        return a.upper()
+    if how == 'hrp_upper':
+        return a[:pos].upper() + a[pos:]
+    if how == 'data_upper':
+        return a[:pos] + a[pos:].upper()
+    # one letter of the data part in upper case
+    for i in range(pos + 1, len(a)):
+        if a[i].isalpha():
+            return a[:i] + a[i].upper() + a[i + 1:]
+    raise AssertionError(a)
+
+
+def _segwit_invalid(hrp, ver, prog, how, other_hrp):
+    """a string one step away from the valid address (hrp, ver, prog) that is NOT a valid segwit address"""
+    const = codec.BECH32_CONST if ver == 0 else codec.BECH32M_CONST
+    data = [ver] + codec.convertbits(prog, 8, 5)
+    if how == 'checksum_char_changed':
+        a = codec.bech32_encode(hrp, data, const)
+        return a[:-1] + codec.CHARSET[(codec.CHARSET.index(a[-1]) + 1) % 32]
+    if how == 'checksum_of_other_bech32_variant':
+        return codec.bech32_encode(hrp, data, codec.BECH32M_CONST if ver == 0 else codec.BECH32_CONST)
+    if how == 'hrp_relabelled':     # data part and checksum of the address of one network behind the HRP of another
+        a = codec.bech32_encode(other_hrp, data, const)
+        return hrp + a[a.rfind('1'):]
+    if how == 'witness_version_17':
+        return codec.bech32_encode(hrp, [17] + data[1:], codec.BECH32M_CONST)
+    if how == 'v0_program_length_not_20_or_32':
+        return codec.bech32_encode(hrp, [0] + codec.convertbits((prog * 21)[:21], 8, 5), codec.BECH32_CONST)
+    if how == 'program_too_short':
+        return codec.bech32_encode(hrp, [ver or 1] + codec.convertbits(prog[:1], 8, 5), codec.BECH32M_CONST)
+    if how == 'program_too_long':
+        return codec.bech32_encode(hrp, [ver or 1] + codec.convertbits((prog * 41)[:41], 8, 5), codec.BECH32M_CONST)
+    if how == 'padding_invalid':
+        d = list(data)
+        if len(prog) * 8 % 5 == 0:
+            d.append(0)             # a whole group of padding
+        else:
+            d[-1] |= 1              # non-zero padding bit
+        return codec.bech32_encode(hrp, d, const)
+    raise ValueError(how)
+
+
+def _base58_invalid(ver, payload, how):
+    if how == 'checksum_char_changed':
+        a = codec.b58check_encode(ver + payload)
+        return a[:-1] + codec.B58[(codec.B58.index(a[-1]) + 1) % 58]
+    ln = {'payload_19_bytes': 19, 'payload_21_bytes': 21, 'payload_32_bytes': 32}[how]
+    return codec.b58check_encode(ver + (payload + payload)[:ln])
+
+
+def _readings(s, net):
+    """strict reference readings of s as an address of network net: [(script, standard kind or None, kind, ver,
+    payload)]"""
+    out = []
+    for n, k, p, v in RA.decode_address(s):
+        if n == net:
+            if k in ('p2pkh', 'p2sh'):
+                out.append((_dest(net, k, 0, p)[1], k, k, 0, p))
+            else:
+                out.append((RA.spk_witness(v, p), _wkind(v, len(p)), 'wit', v, p))
+    return out
+
+
+def _string_class(s, fam):
+    """What a string that is no address of the transaction network is - by the reference decoders alone."""
+    d = codec.segwit_decode(s)
+    if d is not None:
+        if d[0] in _KNOWN_HRPS:
+            return 'foreign_network_address_in_upper_case' if s != s.lower() else 'foreign_network_address'
+        return 'address_with_hrp_of_no_known_network'
+    p = codec.b58check_decode(s)
+    if p is not None and len(p) == 21:
+        return 'foreign_network_address' if p[:1] in _KNOWN_VERS else 'base58_address_with_version_byte_of_no_network'
+    return 'invalid_address_string(%s)' % fam
+
+
+def _addr_strings(seed, quick):
+    """[(family, encoding, string)] - the same list for every transaction network; canonical order"""
+    pl = {k: [bytes(range(1, k + 1)), _fill(seed, 's', k)] for k in (2, 20, 32, 40)}
+    if not quick:
+        for k in pl:
+            pl[k] += [b'\x00' * k, b'\xff' * k]
+    kinds = [(0, 20), (0, 32), (1, 32)] if quick else [(0, 20), (0, 32), (1, 32), (1, 20), (2, 32), (16, 2), (16, 40)]
+    hrps = _KNOWN_HRPS + _FOREIGN_HRPS + _near_hrps(_QUICK_NEAR if quick else _KNOWN_HRPS)
+    S = []
+    for hrp in hrps:
+        for ver, ln in kinds:
+            for p in pl[ln]:
+                a = codec.segwit_encode(hrp, ver, p)
+                for sp in _SPELLINGS:
+                    s = _spell(a, sp)
+                    valid = sp in ('lower', 'upper')
+                    assert (codec.segwit_decode(s) == (hrp, ver, p)) if valid else codec.segwit_decode(s) is None
+                    S.append(('segwit_' + ('spelling_' + sp if valid else 'mixed_case'), 'bech32', s))
+    for i, hrp in enumerate(_KNOWN_HRPS):
+        other = _KNOWN_HRPS[(i + 1) % len(_KNOWN_HRPS)]
+        for ver, ln in kinds:
+            for p in pl[ln][:1 if quick else 2]:
+                for how in _SEGWIT_INVALID:
+                    s = _segwit_invalid(hrp, ver, p, how, other)
+                    for sp in ('lower', 'upper'):
+                        s2 = _spell(s, sp)
+                        assert codec.segwit_decode(s2) is None and codec.b58check_decode(s2) is None, s2
+                        S.append(('segwit_' + how, 'bech32', s2))
+    for v in range(256):
+        for p in pl[20][:1 if quick else 4]:
+            s = codec.b58check_encode(bytes([v]) + p)
+            assert codec.b58check_decode(s) == bytes([v]) + p
+            S.append(('base58check_version_byte', 'base58', s))
+    for v in _KNOWN_VERS:
+        for p in pl[20]:
+            for how in _BASE58_INVALID:
+                s = _base58_invalid(v, p, how)
+                d = codec.b58check_decode(s)
+                assert (d is None or len(d) != 21) and codec.segwit_decode(s) is None, s
+                S.append(('base58_' + ('payload_length_not_20' if how.startswith('payload') else how), 'base58', s))
+    return S
+
+
+def sub_addrstr(case):
+    """case = [transaction network B, [[family, encoding, string], ...]]"""
+    from bitcoinlib.transactions import Output
+    from bitcoinlib.keys import Address, deserialize_address
+    net, items = case
+    acc = _Acc()
+    keys = set()
+    for fam, enc, s in items:
+        rd = _readings(s, net)
+        cls = None if rd else _string_class(s, fam)
+        canonical = s == s.lower() if enc == 'bech32' else True
+        det0 = {'string': s, 'family': fam, 'tx_net': net, 'string_is': cls or 'address_of_the_network'}
+        try:
+            ao = Address.parse(s, network=net)
+            ao_exc = None
+        except Exception as e:
+            ao, ao_exc = None, e
+
+        def raise_(e):
+            raise e
+        ways = [('Output(address=str)', lambda: Output(VAL, address=s, network=net)),
+                ('add_output(address=str)', lambda: _tx_out(net, address=s)),
+                ('Output(address=str,encoding)', lambda: Output(VAL, address=s, encoding=enc, network=net)),
+                ('Output(address=Address.parse(str,network))',
+                 lambda: Output(VAL, address=ao, network=net) if ao is not None else raise_(ao_exc)),
+                ('add_output(address=Address.parse(str,network))',
+                 lambda: _tx_out(net, address=ao) if ao is not None else raise_(ao_exc))]
+        for way, f in ways:
+            obs = _observe(f)
+            acc.n += 1
+            det = dict(det0, way=way)
+            if not rd:
+                if 'exc' in obs:
+                    acc.label('refused_' + cls.split('(')[0])
+                else:
+                    acc.compared += 1
+                    keys.add('%s|%s' % (net, cls))
+                    acc.dev('%s|%s_accepted' % (way, cls),
+                            dict(det, got_script=obs['script'].hex(), got_address=obs['address'],
+                                 output_network=obs['net']))
+                continue
+            stds = [r[1] for r in rd]
+            if 'exc' in obs:
+                if canonical and all(stds):
+                    acc.dev('%s|address_valid_for_network_refused_%s' % (way, obs['exc']), dict(det, msg=obs['msg']))
+                elif all(stds):
+                    acc.label('upper_case_spelling_of_own_address_refused')      # (not demanded, see ASSUMPTIONS)
+                else:
+                    acc.label('nonstandard_refused')
+                continue
+            acc.compared += 1
+            keys.add('%s|own|%s' % (net, fam))
+            hit = [r for r in rd if r[0] == obs['script']]
+            C = []
+            if not hit:
+                C.append(_script_class(rd[0][2], rd[0][3], rd[0][4], rd[0][0], obs['script']))
+            spk, std, kind, ver, payload = hit[0] if hit else rd[0]
+            ga = obs['address']
+            if not (ga == s or (enc == 'bech32' and ga == s.lower())):
+                hrp_as_written = s[:s.rfind('1')]
+                if enc == 'bech32' and ga == codec.segwit_encode(hrp_as_written, ver, payload) and ga != ga.lower():
+                    C.append('address_reencoded_over_the_upper_case_hrp_is_a_mixed_case_string')
+                elif std or _valid_somewhere(ga):
+                    C.append(_addr_class(net, kind, ver, payload, ga, obs.get('address_exc')))
+            if std and obs['type'] != std:
+                C.append('type_%s_reported_as_%s' % (std, _lab(obs['type'])))
+            if obs['net'] != net:
+                C.append('output_network_differs_from_transaction_network')
+            for c in C:
+                acc.dev('%s|%s' % (way, c), dict(det, got_script=obs['script'].hex(), got_address=ga,
+                                                 got_type=obs['type'], expected_script=spk.hex()))
+            if not C:
+                acc.label('ok_' + ('canonical' if canonical else 'upper_case') + '_own_address')
+        # the decoder itself, told the network: it may refuse or name other networks, but must not present a
+        # string that is no address of the network as one, nor another payload
+        acc.n += 1
+        try:
+            d = deserialize_address(s, network=net)
+        except Exception:
+            d = None
+            acc.label('decoder_refused')
+        if d is not None:
+            acc.compared += 1
+            claims = d.get('network') == net or net in (d.get('networks') or [])
+            if not rd:
+                if claims:
+                    acc.dev('deserialize_address(str,network)|%s_reported_as_address_of_the_network' % cls,
+                            dict(det0, got_network=d.get('network'), got_networks=d.get('networks')))
+                else:
+                    acc.label('decoder_names_other_or_no_network')
+            elif d['public_key_hash_bytes'] not in [r[4] for r in rd]:
+                acc.dev('deserialize_address(str,network)|payload_differs',
+                        dict(det0, got=d['public_key_hash_bytes'].hex()))
+            else:
+                acc.label('decoder_ok' if claims else 'decoder_does_not_recognise_upper_case_own_address')
+    return {'devs': acc.devs, 'n': acc.n, 'nt': sorted(keys), 'out': acc.out}
+
+
 SUBS = {'dest': sub_dest, 'keys': sub_keys, 'cross': sub_cross, 'cross_hd': sub_cross_hd, 'near': sub_near,
-        'keyhist': sub_keyhist}
+        'keyhist': sub_keyhist, 'addrstr': sub_addrstr}
 
 
 # ------------------------------------------------------------------------------- enumeration
@@ -959,6 +1226,19 @@ def run(ctx):
                         cases.append([net, 'legacy', 'key', secrets[L % 3], list(hist)])
         ctx.pmap('keyhist', cases)
         ctx.note('key_histories', {'events': KEY_EVENTS, 'max_length': depth, 'networks': hnets, 'cases': len(cases)})
+    if want('addrstr'):
+        S = _addr_strings(seed, q)
+        fams = {}
+        for fam, enc, s in S:
+            fams[fam] = fams.get(fam, 0) + 1
+        B = 48
+        cases = [[net, [list(x) for x in S[i:i + B]]] for i in range(0, len(S), B) for net in nets.NAMES]
+        ctx.pmap('addrstr', cases)
+        ctx.note('address_strings', {
+            'strings': len(S), 'per_family': fams, 'transaction_networks': len(nets.NAMES),
+            'known_hrps': _KNOWN_HRPS, 'other_hrps': _FOREIGN_HRPS + _near_hrps(_QUICK_NEAR if q else _KNOWN_HRPS),
+            'spellings': list(_SPELLINGS), 'base58check_version_bytes': '0..255',
+            'ways_per_string_and_network': 6, 'cases': len(cases)})
     ctx.note('bounds', {
         'networks': nets.NAMES, 'witness_versions': '0..16', 'program_lengths': [2, 20, 32, 40],
         'payloads_per_length': len(_payloads(20, seed, q)), 'destinations_per_network': len(D),
